@@ -33,7 +33,11 @@ func runHistory(e *core.Env) {
 			return
 		}
 		rec.Begin("history", i, "")
-		historyCase(e, w, i, core.NewRNG(e.Seed, "c17.history", i))
+		runConfirmed(e, func(b *recBuf) {
+			if worldFor(e, &w) {
+				historyCase(e, b, w, i, core.NewRNG(e.Seed, "c17.history", i))
+			}
+		})
 		rec.Eval()
 	})
 }
@@ -53,8 +57,7 @@ type histOp struct {
 	Lifetime string   `json:"lifetime,omitempty"`
 }
 
-func historyCase(e *core.Env, w *world, ci int, r *core.RNG) {
-	rec := e.Rec
+func historyCase(e *core.Env, rec *recBuf, w *world, ci int, r *core.RNG) {
 	capacity := r.Pick(1, 2, 2, 3, 4, -1)
 	nNames := r.Range(1, 4)
 	if capacity > 0 && r.Chance(1, 2) {
@@ -67,13 +70,13 @@ func historyCase(e *core.Env, w *world, ci int, r *core.RNG) {
 	}
 	names := make([]string, nNames)
 	for k := range names {
-		names[k] = fmt.Sprintf("h%d-n%d-s%d.c17.test", ci, k, e.Seed)
+		names[k] = fmt.Sprintf("h%d-n%d-s%d%s.c17.test", ci, k, e.Seed, rec.suffix())
 	}
 	model := &lruModel{cap: capacity}
 	evicted := map[string]*entry{}
 	t0 := vtime.Now()
 	var trace []histOp
-	c := &caseCtx{w: w, e: e, sub: "history", ci: ci, desc: map[string]any{"capacity": capacity, "names": names}}
+	c := &caseCtx{w: w, e: e, b: rec, sub: "history", ci: ci, desc: map[string]any{"capacity": capacity, "names": names}}
 	c.desc["history"] = &trace
 	feats := map[string]bool{}
 	nOps := r.Range(10, 18)
